@@ -145,6 +145,11 @@ func editResync(r *Run) {
 		if c.S > 4096 {
 			k = 1 + t.Draw(3, "slices-huge")
 		}
+		if c.S <= 20 && t.Bool(1, 20, "thousands-of-slices") {
+			// a file of a few thousand slices
+			k = 2000 + t.Draw(3000, "many-slices")
+			r.Probe("file-of-thousands-of-slices")
+		}
 		c.N1 = k * c.S
 		if t.Bool(1, 2, "ragged") {
 			c.N1 -= 1 + t.Draw(c.S-1, "short")
@@ -342,7 +347,7 @@ func editResync(r *Run) {
 		r.Count("geometry-above-lower")
 		bound = tr.Scan.Lower
 	}
-	v := r.Verify2(w, w.Index, 1, nil, SchedSpec{})
+	v := r.Verify2(w, w.Index, []int{1, 1, 2, 3, 8}[t.Draw(5, "verify-g")], nil, SchedSpec{})
 	r.noPanic(v)
 	if v.Err != nil {
 		r.Violate("verify-error", "Verify failed: %v", v.Err)
